@@ -1,0 +1,42 @@
+//go:build verif
+
+package verifbridge
+
+import (
+	"iter"
+
+	iec "github.com/nspcc-dev/neofs-node/internal/ec"
+)
+
+// ECRule re-exports [iec.Rule].
+type ECRule = iec.Rule
+
+// ECNodeSequenceForPart re-exports [iec.NodeSequenceForPart].
+func ECNodeSequenceForPart(partIdx, totalParts, nodes int) iter.Seq[int] {
+	return iec.NodeSequenceForPart(partIdx, totalParts, nodes)
+}
+
+// ECEncode re-exports [iec.Encode].
+func ECEncode(rule iec.Rule, data []byte) ([][]byte, []string, error) {
+	return iec.Encode(rule, data)
+}
+
+// ECDecode re-exports [iec.Decode].
+func ECDecode(rule iec.Rule, dataLen uint64, parts [][]byte) ([]byte, error) {
+	return iec.Decode(rule, dataLen, parts)
+}
+
+// ECConcatDataParts re-exports [iec.ConcatDataParts].
+func ECConcatDataParts(rule iec.Rule, dataLen uint64, parts [][]byte) []byte {
+	return iec.ConcatDataParts(rule, dataLen, parts)
+}
+
+// ECDecodeRange re-exports [iec.DecodeRange].
+func ECDecodeRange(rule iec.Rule, fromIdx, toIdx int, parts [][]byte) error {
+	return iec.DecodeRange(rule, fromIdx, toIdx, parts)
+}
+
+// ECDecodeIndexes re-exports [iec.DecodeIndexes].
+func ECDecodeIndexes(rule iec.Rule, parts [][]byte, idxs []int) error {
+	return iec.DecodeIndexes(rule, parts, idxs)
+}
